@@ -488,6 +488,57 @@ class Facts:
             raise AnalysisBroken("anchor %s: expected exactly one definition, found %d" % (qname, len(r)))
         return r[0]
 
+    def expander(self, fn):
+        """-> (render, names): render(e) = show(e) with every local that is defined once and never reassigned replaced by its
+        initialiser (`const size_t n = order.size();` ... `n` renders as `order.size()`); names = {local name: rendering}"""
+        body = fn.get("body") or {}
+        assigned = set()
+        for n in walk(body):
+            t = n["l"] if n["k"] == "Assign" else (n["e"] if n["k"] == "Unary" and n["op"] in ("++", "--") else None)
+            if is_node(t) and t["k"] == "Ref":
+                assigned.add(t.get("id"))
+            for i_ in (n.get("refargs") or []) if n["k"] in ("Call", "OpCall", "Construct") else []:
+                a = (n.get("args") or [None] * (i_ + 1))[i_] if i_ < len(n.get("args") or []) else None
+                if is_node(a) and a["k"] == "Ref":
+                    assigned.add(a.get("id"))
+        defs = {}
+        for n in walk(body):
+            if n["k"] == "Decl":
+                for v in n.get("vars", []):
+                    t = (v.get("ct") or v.get("t") or "").rstrip()
+                    if is_node(v.get("init")) and v["id"] not in assigned and v["init"]["k"] not in ("Lambda", "InitList", "Construct"):
+                        defs[v["id"]] = v["init"]
+
+        def subst(e, depth=0):
+            if isinstance(e, list):
+                return [subst(x, depth) for x in e]
+            if not isinstance(e, dict):
+                return e
+            if e.get("k") == "Ref" and e.get("id") in defs and depth < 6:
+                i0 = defs[e["id"]]
+                while is_node(i0) and i0["k"] == "Cast":
+                    i0 = i0["e"]
+                return subst(i0, depth + 1)
+            return {k: subst(v, depth) for k, v in e.items()}
+
+        def render(e):
+            return show(subst(e)) if is_node(e) else str(e)
+
+        names = {}
+        for n in walk(body):
+            if n["k"] == "Decl":
+                for v in n.get("vars", []):
+                    if v["id"] in defs:
+                        names[v["name"]] = render(defs[v["id"]])
+        return render, names
+
+    def inl(self, fn):
+        """inline view of fn (private helpers, local lambdas and std::for_each expanded; lib/inline.py)"""
+        import inline
+        if getattr(self, "_inliner", None) is None:
+            self._inliner = inline.Inliner(self)
+        return self._inliner.view(fn)
+
     def method(self, cls, short, inherited=True):
         """definitions of cls::short, or of the nearest base that defines it"""
         for c in [cls] + (self.ancestors(cls) if inherited else []):
